@@ -1108,6 +1108,32 @@ def pick_topology(rng):
     return k, rng.choice(["numa:1 core:2 pu:2", "pack:1 [numa] core:4 pu:1", "[numa(memory=2048)] core:3 pu:1"])
 
 
+def hetero_topology(rng):
+    """heterogeneous-memory machines for hwloc_topology_get_default_nodeset(): nested NUMA
+    localities, NUMA os_indexes shuffled (so the os_index order differs from the locality
+    order).  -> (kind, [descriptions to try in order], number of NUMA nodes)"""
+    shape = rng.choice(["pack-l3", "pack-l3", "machine-pack", "twin", "pack-die"])
+    u = rng.randint(1, 2)
+    if shape == "pack-l3":
+        p, k = rng.choice([(1, 2), (1, 2), (1, 3), (2, 2)])
+        n, fmt = p + p * k, "pack:%d [numa] l3:%d [numa%%s] pu:%d" % (p, k, u + 1)
+    elif shape == "machine-pack":
+        p = rng.randint(2, 4)
+        n, fmt = 1 + p, "[numa] pack:%d [numa%%s] core:%d pu:1" % (p, u)
+    elif shape == "twin":
+        p = rng.randint(1, 3)
+        n, fmt = 2 * p, "pack:%d [numa] [numa%%s] core:2 pu:%d" % (p, u)
+    else:
+        p, d = rng.choice([(1, 2), (1, 3), (2, 2)])
+        n, fmt = p + p * d, "pack:%d [numa] die:%d [numa%%s] core:%d pu:1" % (p, d, u)
+    perm = list(range(n))
+    rng.shuffle(perm)
+    if rng.random() < 0.25:                      # sparse numbering as well
+        perm = [x * 2 + 1 for x in perm]
+    descs = [fmt % ("(indexes=%s)" % ",".join(map(str, perm))), fmt % ""]
+    return "hetero-" + shape, descs, n
+
+
 def parse_op_output(out):
     r, tab, cur = None, None, None
     for l in out:
@@ -1141,6 +1167,9 @@ class OpGen:
         w = dict(self.WEIGHTS)
         if stream == "internal":
             w["iset"] = 14
+        if stream == "hetero":      # default nodeset / local nodes on heterogeneous machines, through restrict/dup/xml
+            w.update({"defnodes": 30, "local": 12, "restrict": 9, "xml": 4, "dup": 3, "set": 10, "get": 5, "targets": 3,
+                      "inits": 2, "bestt": 3, "besti": 2, "reg": 2})
         self.wops, self.wts = list(w), [w[k] for k in w]
         self.refresh()
 
@@ -1463,13 +1492,22 @@ class Session:
         return tab
 
 
-def gen_header(rng, s, name, force=None):
+def gen_header(rng, s, name, force=None, hetero=False):
     """case / synth / pre_restrict / misc / mem / subtype / start.  Returns (topokind, Topo)"""
     kind, desc = pick_topology(rng)
+    alts = []
+    if hetero:
+        kind, alts, _ = hetero_topology(rng)
+        desc = alts.pop(0)
     if force:
         kind, desc = "scripted", force
     s.send("case " + name)
     o = s.send("synth " + desc)
+    while "P synth rc=0" not in o and alts:      # shuffled indexes refused: same shape with default numbering
+        s.script.pop()
+        desc = alts.pop(0)
+        kind += "-plainidx"
+        o = s.send("synth " + desc)
     if "P synth rc=0" not in o:
         raise RuntimeError("synthetic description does not load: %r (%r)" % (desc, o))
     t = s.table()
@@ -1493,7 +1531,15 @@ def gen_header(rng, s, name, force=None):
     if rng.random() < 0.4:
         for _ in range(rng.randint(1, 3)):
             s.send("mem %d %d" % (rng.randrange(nn), rng.choice([0, 512, 1024, 4096])))
-    if rng.random() < 0.25:
+    if hetero:
+        # heterogeneous subtypes: two classes dominate, some nodes without subtype
+        classes = rng.sample(["DRAM", "HBM", "NVM"], 2)
+        pnone = rng.choice([0.0, 0.2, 0.5])
+        for i in range(nn):
+            if rng.random() >= pnone:
+                s.send("subtype %d %s" % (i, rng.choice(classes + classes + ["NVM"])))
+        kind += "+subtype"
+    elif rng.random() < 0.25:
         for _ in range(rng.randint(1, min(3, nn))):
             s.send("subtype %d %s" % (rng.randrange(nn), rng.choice(["DRAM", "HBM", "NVM"])))
         kind += "+subtype"
@@ -1512,7 +1558,7 @@ def gen_case(rng, proc, name, stream, first=False):
         force = None
         if stream in ("uninit", "dupfree"):
             force = rng.choice(["pack:2 [numa] core:2 pu:1", "pack:3 [numa(memory=512)] core:2 pu:2", "numa:2 core:2 pu:1"])
-        kind, topo = gen_header(rng, s, name, force)
+        kind, topo = gen_header(rng, s, name, force, hetero=(stream == "hetero"))
         ref = Ref(proc.types)
         ref.topo = topo
         og = OpGen(rng, ref, stream)
